@@ -235,20 +235,64 @@ def check_tables(ctx, lane, scenes, egos, div, index):
             ctx.violate("C19", "no_exception", "analyze() raised %s in %s" % (type(ex).__name__, hit), {"error": str(ex)[:200],
                         "fp_labelled_gt_paired": any(g is not None and e is not None and V.label_of(g) == "false_positive" for _, _, _, g, e, _, _ in rows)}, index)
             return
-        if result.error is not None and paired:
-            for col in ("x", "y", "yaw"):
-                want = err[col]
-                try:
-                    row = result.error.loc[("ALL", col)]
-                except KeyError:
-                    ctx.violate("C19", "summaries", "error summary lacks (ALL, %s)" % col, {}, index)
+        def expected_errors(select):
+            """{label or 'ALL': {col: [errors]}} over the paired TP/FP/TN rows chosen by select(row tuple)."""
+            out = {"ALL": {"x": [], "y": [], "yaw": []}}
+            for row in rows:
+                si_, fnum_, status_, g_, e_, ego5_, _src = row
+                if g_ is None or e_ is None or status_ not in ("TP", "FP", "TN") or not select(row):
                     continue
-                mean = sum(want) / len(want)
-                rms = math.sqrt(sum(v * v for v in want) / len(want))
-                mx = max(abs(v) for v in want)
-                for name, w in (("average", mean), ("rms", rms), ("max", mx)):
-                    if abs(float(row[name]) - w) > 1e-6 * max(1.0, abs(w)):
-                        ctx.violate("C19", "summaries", "%s of the %s error is %r, the paired rows give %r" % (name, col, float(row[name]), w), {}, index)
+                ego_ = ego5_[:4]
+                pg, pe = V.ego_pos(g_, ego_), V.ego_pos(e_, ego_)
+                vals = {"x": pg[0] - pe[0], "y": pg[1] - pe[1], "yaw": rm.wrap(rm.q_yaw(V.quat_of(g_)) - rm.q_yaw(V.quat_of(e_)))}
+                for key in ("ALL", V.label_of(g_)):
+                    d_ = out.setdefault(key, {"x": [], "y": [], "yaw": []})
+                    for c_ in vals:
+                        d_[c_].append(vals[c_])
+            return out
+
+        def check_error_table(table, want_by_label, what):
+            for lab in an.all_labels:
+                for col in ("x", "y", "yaw"):
+                    want = want_by_label.get(lab, {}).get(col, [])
+                    try:
+                        row = table.loc[(str(lab), col)]
+                    except KeyError:
+                        ctx.violate("C19", "summaries", "%s: error summary lacks (%s, %s)" % (what, lab, col), {}, index)
+                        continue
+                    if not want:
+                        if not _isnull(row["average"]):
+                            ctx.violate("C19", "summaries", "%s: %s error of label %s is %r although no paired row of that label is selected" %
+                                        (what, col, lab, float(row["average"])), {}, index)
+                        continue
+                    # yaw differences exactly at +-pi may come out with either sign: skip those summaries
+                    if col == "yaw" and any(abs(abs(v) - math.pi) < 1e-6 for v in want):
+                        continue
+                    mean = sum(want) / len(want)
+                    rms = math.sqrt(sum(v * v for v in want) / len(want))
+                    mx = max(abs(v) for v in want)
+                    for name, w in (("average", mean), ("rms", rms), ("max", mx)):
+                        if _isnull(row[name]) or abs(float(row[name]) - w) > 1e-6 * max(1.0, abs(w)):
+                            ctx.violate("C19", "summaries", "%s: %s of the %s error for %s is %r, the paired rows give %r" %
+                                        (what, name, col, lab, row[name], w), {}, index)
+                            return
+
+        if result.error is not None and paired:
+            check_error_table(result.error, expected_errors(lambda row: True), "all rows")
+            ctx.probe("c19_per_label_summaries")
+        if len(stored) >= 2:
+            k = len(stored) - 1
+            try:
+                sel = an.analyze(scene=k)
+            except Exception as ex:  # noqa
+                hit = X.innermost_repo_frame(__import__("traceback").extract_tb(ex.__traceback__), R["src"])
+                if hit is None:
+                    raise
+                ctx.violate("C19", "no_exception", "analyze(scene=%d) raised %s in %s" % (k, type(ex).__name__, hit), {"error": str(ex)[:200]}, index)
+                sel = None
+            if sel is not None and sel.error is not None:
+                check_error_table(sel.error, expected_errors(lambda row: row[0] == k), "scene selection")
+                ctx.probe("c19_scene_selected_summaries")
         if result.score is not None:
             for col in ("TP", "FP", "TN", "FN"):
                 if col in result.score.columns:
